@@ -200,6 +200,8 @@ struct RefMem {
     reports: Vec<(usize, u32, bool)>,
     /// broadcast but not yet consumed by the worker
     pending: Vec<(usize, u32)>,
+    /// (path, instant): the path was in the slot when a failure report lying on it was consumed
+    hit_in_slot: Vec<(usize, u32)>,
 }
 impl RefMem {
     /// age of the youngest report (consumed or not) that lies on path `id`
@@ -410,7 +412,8 @@ impl World {
                             if !in_ever {
                                 self.push("C05", "served-path-not-from-any-lookup".into(), format!("{} with expiry T0+{} was never returned by a lookup", UNIVERSE[id].name, e as i64 - T0 as i64));
                             } else if !in_last && e <= now {
-                                let c = format!("expired-path-of-superseded-lookup-served{}{late}", if failed { "-after-failed-refetch" } else { "" });
+                                let c = format!("expired-path-served-after-later-lookup-{}{late}", if self.mem.last_lookup_useful == Some(false) { "returned-only-rejected-paths" } else { "succeeded-without-it" });
+                                let _ = failed;
                                 self.push("C05", c, format!("{} stems from a lookup older than the most recent successful one and expired {} s ago (\"or an earlier one still valid\")", UNIVERSE[id].name, now - e));
                             }
                         }
@@ -442,7 +445,7 @@ impl World {
         if o.icache.len() > self.cfg.issue_cache {
             self.push("C06", "issue-cache-exceeds-size-after-stale-fifo-head".into(), format!("issue cache holds {} entries > configured {}", o.icache.len(), self.cfg.issue_cache));
         }
-        if o.fifo.len() > self.cfg.issue_cache {
+        if o.fifo.len() > self.cfg.issue_cache && o.icache.len() <= self.cfg.issue_cache {
             let same = o.fifo.iter().any(|(i, t)| o.fifo.iter().any(|(j, u)| i == j && t != u));
             let c = if same { "issue-fifo-exceeds-size-same-issue-rereported-outside-dedup-window" } else { "issue-fifo-exceeds-size" };
             self.push("C06", c.into(), format!("issue FIFO holds {} entries > configured {} (cache {})", o.fifo.len(), self.cfg.issue_cache, o.icache.len()));
@@ -528,7 +531,8 @@ impl World {
         // (b) no return while the penalty is fresh
         if changed {
             if let Some(a) = after.slot_id() {
-                if let Some(age) = self.mem.youngest_report_on(a, now).filter(|age| *age < HALF_LIFE) {
+                let was_hit = self.mem.hit_in_slot.iter().filter(|(p, t)| *p == a && now - *t < HALF_LIFE).map(|(_, t)| now - *t).min();
+                if let Some(age) = was_hit {
                     // interfaces freshly failed on the new slot path (only consumed reports count as penalty)
                     let fresh: Vec<usize> = self.mem.reports.iter().filter(|(k, t, b)| *b && now - *t < HALF_LIFE && ref_issue_on_path(*k, a) && !self.mem.pending.iter().any(|(pk, pt)| pk == k && pt == t)).map(|(k, _, _)| *k).collect();
                     if !fresh.is_empty() {
@@ -539,12 +543,12 @@ impl World {
                             .collect();
                         if !alts.is_empty() {
                             let alt_near = alts.iter().all(|(_, e, _)| e.unwrap() - now <= self.cfg.threshold);
-                            let c = format!("moved-onto-freshly-penalised-path-alt-{}{late}", if alt_near { "near-expiry" } else { "valid" });
+                            let c = format!("returned-to-freshly-penalised-path-alt-{}{late}", if alt_near { "near-expiry" } else { "valid" });
                             self.push(
                                 "C07",
                                 c,
                                 format!(
-                                    "{what}: slot moved {:?} -> {} although a failure on it was reported {age} s ago (< half-life {HALF_LIFE} s) and {:?} is cached, unexpired and unpenalised",
+                                    "{what}: slot moved {:?} -> {} although it was in use when a failure on it was consumed {age} s ago (< half-life {HALF_LIFE} s) and {:?} is cached, unexpired and unpenalised",
                                     before.slot_id().map(|b| UNIVERSE[b].name),
                                     UNIVERSE[a].name,
                                     alts.iter().map(|(i, e, _)| format!("{} (expires in {} s)", UNIVERSE[*i].name, e.unwrap() - now)).collect::<Vec<_>>()
@@ -552,7 +556,7 @@ impl World {
                             );
                         }
                     }
-                } else if self.mem.reports.iter().any(|(k, _, b)| *b && ref_issue_on_path(*k, a)) {
+                } else if self.mem.hit_in_slot.iter().any(|(p, _)| *p == a) {
                     // moved (back) onto a path whose penalty has aged beyond a half-life: recovery is observed
                     self.stats.recover_selected += 1;
                 }
@@ -593,6 +597,7 @@ impl World {
             g.queue.push_back(res);
             g.calls
         };
+        let slot_before = if self.mem.pending.is_empty() { None } else { self.slot_id_now() };
         let pending = std::mem::take(&mut self.mem.pending);
         let r = if is_init { vpc::catch(|| block_on(self.pr.fetch_and_update(at(t)))).map(|_| None) } else { vpc::catch(|| block_on(self.pr.maintain(at(t)))) };
         match r {
@@ -673,6 +678,7 @@ impl World {
             return Err(Stop::UnusedOutcome);
         }
         self.after_change(&format!("tick@+{} [{}]", t - T0, o.label()), &before, &consumed);
+        self.note_hits(slot_before, &consumed);
         self.check_state(&format!("tick@+{} [{}]", t - T0, o.label()));
         Ok(tie_point)
     }
@@ -775,8 +781,20 @@ impl World {
         Ok(())
     }
 
+    fn slot_id_now(&self) -> Option<usize> {
+        self.pr.active().and_then(|p| self.fps.get(&p.fingerprint()).copied())
+    }
+    fn note_hits(&mut self, slot_before: Option<usize>, consumed: &[(usize, u32)]) {
+        if let Some(s) = slot_before {
+            if consumed.iter().any(|(k, _)| ref_issue_on_path(*k, s)) {
+                self.mem.hit_in_slot.push((s, self.now));
+            }
+        }
+    }
+
     fn deliver(&mut self) -> Result<(), Stop> {
         let before = if self.checking { self.observe() } else { Obs::default() };
+        let slot_before = if self.mem.pending.is_empty() { None } else { self.slot_id_now() };
         let pending = std::mem::take(&mut self.mem.pending);
         let now = at(self.now);
         let n = match vpc::catch(|| self.pr.deliver_issues(now)) {
@@ -788,6 +806,7 @@ impl World {
             return Err(Stop::UnusedOutcome);
         }
         self.after_change(&format!("Deliver({n})"), &before, &pending);
+        self.note_hits(slot_before, &pending);
         self.check_state(&format!("Deliver({n})"));
         Ok(())
     }
